@@ -136,6 +136,30 @@ Theorem c10_unseen_exact : forall ls mb,
 Proof. exact unseen_exact. Qed.
 Print Assumptions c10_unseen_exact.
 
+(** (b) every report is a function of the flag table, not of the asking
+    session: STATUS UNSEEN / MESSAGES of two sessions agree whatever each has
+    selected (the mailbox asked about - "STATUS on the selected mailbox" -
+    another one, or none), however it selected it and whatever its cached
+    counters (ClientState.LastMessageCount / LastRecentCount) hold; SEARCH and
+    FETCH of two sessions with the same selection agree; and all of them are
+    the set-membership answers about the table. *)
+Theorem c10_reports_independent_of_session : forall ss ss' s,
+  (forall mb, status_unseen ss s mb = status_unseen ss' s mb)
+  /\ (forall mb, status_messages ss s mb = status_messages ss' s mb)
+  /\ (ss_selected ss = ss_selected ss' ->
+      (forall k, sess_search ss s k = sess_search ss' s k) /\ sess_fetch ss s = sess_fetch ss' s).
+Proof. exact reports_independent_of_session. Qed.
+Print Assumptions c10_reports_independent_of_session.
+
+Theorem c10_session_reports_exact : forall ss s,
+  (forall mb, status_unseen ss s mb = spec_unseen_count (links s) mb)
+  /\ (forall k, sess_search ss s k = spec_search (links s) (ss_selected ss) k)
+  /\ (forall u fl, In (u, fl) (sess_fetch ss s) <->
+        exists l, In l (links s) /\ lk_mbox l = ss_selected ss /\ lk_uid l = u /\ lk_flags l = fl)
+  /\ (forall mb, status_messages ss s mb = Z.of_nat (length (view (links s) mb))).
+Proof. exact session_reports_exact. Qed.
+Print Assumptions c10_session_reports_exact.
+
 (** (d) STORE, UID STORE, EXPUNGE and CLOSE of a session that opened the
     mailbox with EXAMINE change nothing, in every state (no side condition) *)
 Theorem c10_examine_never_modifies : forall e s o, read_only_op o -> step e s o = s.
